@@ -71,6 +71,7 @@ class Index:
         self.enum_consts = {}    # id -> (name, value)
         self.last_file = None
         self._pending_ool = []
+        self.lambda_expr = {}
         for o in objs:
             self._walk(o, [], False, None)
         self._resolve()
@@ -169,6 +170,8 @@ class Index:
                     self.by_id[c['id']] = c
             return
         if k in FUNC_KINDS:
+            if nid in self.qual and 'inner' not in n:
+                return
             if 'parentDeclContextId' in n and rec is None:
                 # out-of-line definition: scope resolved later from the parent
                 self._pending_ool.append((n, in_pattern))
@@ -189,6 +192,20 @@ class Index:
         while stack:
             c = stack.pop()
             cid = c.get('id')
+            if c.get('kind') == 'LambdaExpr' and not in_pattern:
+                key = c['type']['qualType']
+                rec = c['inner'][0]
+                self.records.setdefault(key, rec)
+                self.qual[rec['id']] = key
+                self.lambda_expr[rec['id']] = c
+                for m in rec.get('inner', []):
+                    if m.get('kind') in FUNC_KINDS:
+                        self.qual[m['id']] = key + '::' + m.get('name', '')
+                        self.parent_rec[m['id']] = rec['id']
+                        self.by_id[m['id']] = m
+                    elif m.get('kind') == 'FieldDecl':
+                        self.by_id[m['id']] = m
+                        self.parent_rec[m['id']] = rec['id']
             if cid and c.get('kind', '').endswith('Decl'):
                 self.by_id[cid] = c
                 if in_pattern: self.pattern.add(cid)
@@ -196,6 +213,7 @@ class Index:
 
     def _reg_func(self, n, scope, rec):
         nid = n['id']
+        if nid in self.qual: return     # the same node is dumped again (abbreviated) under later redeclarations
         qn = '::'.join(scope + [n.get('name', '')])
         targs = self._targs(n)
         if targs: qn += '<' + ', '.join(targs) + '>'
